@@ -104,3 +104,98 @@ theorem deFlipSpec_aligned {raw : Pose ℝ} {origin : Vec3 ℝ} {xs pl : List (V
     simp [hp p hpm]
 
 end CfVerif.C16
+
+namespace CfVerif.C16
+
+/-! ### approximate convergence: the de-flip keeps every residual component's magnitude -/
+
+theorem all_append_iff {P : ℝ → Prop} {l₁ l₂ : List ℝ} : (∀ c ∈ l₁ ++ l₂, P c) ↔ (∀ c ∈ l₁, P c) ∧ ∀ c ∈ l₂, P c := by
+  simp only [List.mem_append]
+  constructor
+  · intro h; exact ⟨fun c hc => h c (Or.inl hc), fun c hc => h c (Or.inr hc)⟩
+  · rintro ⟨h1, h2⟩ c (hc | hc)
+    · exact h1 c hc
+    · exact h2 c hc
+
+theorem toList_all (P : ℝ → Prop) (v : Vec3 ℝ) : (∀ c ∈ v.toList, P c) ↔ P v.x ∧ P v.y ∧ P v.z := by
+  obtain ⟨a, b, c⟩ := v
+  simp only [Vec3.toList, List.mem_cons, List.not_mem_nil, or_false]
+  constructor
+  · intro h; exact ⟨h a (Or.inl rfl), h b (Or.inr (Or.inl rfl)), h c (Or.inr (Or.inr rfl))⟩
+  · rintro ⟨h1, h2, h3⟩ d (rfl | rfl | rfl)
+    · exact h1
+    · exact h2
+    · exact h3
+
+theorem pairs_all (P : ℝ → Prop) (f g : Vec3 ℝ → ℝ) (xs : List (Vec3 ℝ)) :
+    (∀ c ∈ (xs.map fun x => [f x, g x]).flatten, P c) ↔ ∀ x ∈ xs, P (f x) ∧ P (g x) := by
+  induction xs with
+  | nil => simp
+  | cons x xs ih =>
+    simp only [List.map_cons, List.flatten_cons, all_append_iff, ih, List.mem_cons, List.not_mem_nil, or_false]
+    constructor
+    · rintro ⟨h1, h2⟩ y (rfl | hy)
+      · exact ⟨h1 _ (Or.inl rfl), h1 _ (Or.inr rfl)⟩
+      · exact h2 y hy
+    · intro h
+      refine ⟨?_, fun y hy => h y (Or.inr hy)⟩
+      rintro c (rfl | rfl)
+      · exact (h x (Or.inl rfl)).1
+      · exact (h x (Or.inl rfl)).2
+
+theorem map_all (P : ℝ → Prop) (f : Vec3 ℝ → ℝ) (xs : List (Vec3 ℝ)) : (∀ c ∈ xs.map f, P c) ↔ ∀ x ∈ xs, P (f x) := by
+  simp only [List.mem_map]
+  constructor
+  · intro h x hx; exact h _ ⟨x, hx, rfl⟩
+  · rintro h c ⟨x, hx, rfl⟩; exact h x hx
+
+/-- every component of the residual satisfies `P` ⇔ the corresponding coordinates of the transformed samples do -/
+theorem residual_all_iff (hlo : Gen.C16.xSliceLo = 1) (hhi : Gen.C16.xSliceHi = 3) (hidx : Gen.C16.planeIdx = 2)
+    (P : ℝ → Prop) (T : Pose ℝ) (origin : Vec3 ℝ) (xs pl : List (Vec3 ℝ)) :
+    (∃ r, calcResidualOf T origin xs pl = .ok r ∧ ∀ c ∈ r, P c) ↔
+      (P (T.rotateTranslate origin).x ∧ P (T.rotateTranslate origin).y ∧ P (T.rotateTranslate origin).z) ∧
+      (∀ x ∈ xs, P (T.rotateTranslate x).y ∧ P (T.rotateTranslate x).z) ∧ ∀ p ∈ pl, P (T.rotateTranslate p).z := by
+  rw [calcResidualOf_eq hlo hhi hidx]
+  have key : (∀ c ∈ ((T.rotateTranslate origin).toList ++
+      (xs.map fun x => [(T.rotateTranslate x).y, (T.rotateTranslate x).z]).flatten ++
+      pl.map fun p => (T.rotateTranslate p).z), P c) ↔
+      ((P (T.rotateTranslate origin).x ∧ P (T.rotateTranslate origin).y ∧ P (T.rotateTranslate origin).z) ∧
+      (∀ x ∈ xs, P (T.rotateTranslate x).y ∧ P (T.rotateTranslate x).z) ∧ ∀ p ∈ pl, P (T.rotateTranslate p).z) := by
+    rw [all_append_iff, all_append_iff, toList_all,
+      pairs_all P (fun x => (T.rotateTranslate x).y) (fun x => (T.rotateTranslate x).z),
+      map_all P (fun p => (T.rotateTranslate p).z)]
+    exact and_assoc
+  constructor
+  · rintro ⟨r, hr, hz⟩
+    injection hr with hr
+    subst hr
+    exact key.1 hz
+  · intro h
+    exact ⟨_, rfl, key.2 h⟩
+
+/-- the de-flipped transformation's residual components are, up to sign, those of the raw transformation: a bound on
+their magnitude carries over -/
+theorem deFlipSpec_residual_bound (hlo : Gen.C16.xSliceLo = 1) (hhi : Gen.C16.xSliceHi = 3) (hidx : Gen.C16.planeIdx = 2)
+    (ε : ℝ) (raw : Pose ℝ) (origin : Vec3 ℝ) (xs pl : List (Vec3 ℝ)) (m b : Vec3 ℝ)
+    (h : ∃ r, calcResidualOf raw origin xs pl = .ok r ∧ ∀ c ∈ r, |c| ≤ ε) :
+    ∃ r, calcResidualOf (deFlipSpec raw m b) origin xs pl = .ok r ∧ ∀ c ∈ r, |c| ≤ ε := by
+  rw [residual_all_iff hlo hhi hidx (fun c => |c| ≤ ε)] at h ⊢
+  have sgn : ∀ (s : ℝ) (a : ℝ), (s = 1 ∨ s = -1) → |s * a| = |a| := by
+    rintro s a (rfl | rfl) <;> simp
+  have s1 : ∀ c : Prop, [Decidable c] → ((if c then (-1 : ℝ) else 1) = 1 ∨ (if c then (-1 : ℝ) else 1) = -1) := by
+    intro c _; by_cases hc : c <;> simp [hc]
+  have s12 : ∀ c d : Prop, [Decidable c] → [Decidable d] →
+      ((if c then (-1 : ℝ) else 1) * (if d then (-1 : ℝ) else 1) = 1 ∨ (if c then (-1 : ℝ) else 1) * (if d then (-1 : ℝ) else 1) = -1) := by
+    intro c d _ _; by_cases hc : c <;> by_cases hd : d <;> simp [hc, hd]
+  obtain ⟨⟨h1, h2, h3⟩, hx, hp⟩ := h
+  simp only [deFlipSpec_apply]
+  refine ⟨⟨?_, ?_, ?_⟩, ?_, ?_⟩
+  · rw [sgn _ _ (s1 _)]; exact h1
+  · rw [sgn _ _ (s12 _ _)]; exact h2
+  · rw [sgn _ _ (s1 _)]; exact h3
+  · intro x hxm
+    exact ⟨by rw [sgn _ _ (s12 _ _)]; exact (hx x hxm).1, by rw [sgn _ _ (s1 _)]; exact (hx x hxm).2⟩
+  · intro p hpm
+    rw [sgn _ _ (s1 _)]; exact hp p hpm
+
+end CfVerif.C16
